@@ -533,22 +533,25 @@ func ruleR014(c *Ctx) {
 	}
 	// In AddArgs: the values appended to *outersUsed, with a backward def-use closure inside the literal
 	var appendArgs []ast.Expr
-	var lit *ast.FuncLit
-	ast.Inspect(addArgsDecl.Body, func(n ast.Node) bool {
-		if call, ok := n.(*ast.CallExpr); ok {
-			if id, ok := ast.Unparen(call.Fun).(*ast.Ident); ok && id.Name == "append" && len(call.Args) >= 2 {
-				if st, ok := ast.Unparen(call.Args[0]).(*ast.StarExpr); ok {
-					if pid, ok := ast.Unparen(st.X).(*ast.Ident); ok && pid.Name != "" {
-						appendArgs = append(appendArgs, call.Args[1:]...)
-						if l, ok := c.EnclosingFunc(call).(*ast.FuncLit); ok {
-							lit = l
+	// the lookup function AddArgs returns: a literal, or a method value of a struct that holds the captured values
+	var lit ast.Node
+	var litBody *ast.BlockStmt
+	for _, rf := range c.returnedFuncs(root, addArgsDecl) {
+		ast.Inspect(rf.body, func(n ast.Node) bool {
+			if call, ok := n.(*ast.CallExpr); ok {
+				if id, ok := ast.Unparen(call.Fun).(*ast.Ident); ok && id.Name == "append" && len(call.Args) >= 2 {
+					if st, ok := ast.Unparen(call.Args[0]).(*ast.StarExpr); ok {
+						switch ast.Unparen(st.X).(type) {
+						case *ast.Ident, *ast.SelectorExpr:
+							appendArgs = append(appendArgs, call.Args[1:]...)
+							lit, litBody = rf.fn, rf.body
 						}
 					}
 				}
 			}
-		}
-		return true
-	})
+			return true
+		})
+	}
 	key := "parser2.Identifiers.AddArgs#recorded-outer-name"
 	if len(appendArgs) == 0 || lit == nil {
 		c.Undecided(key, addArgsDecl.Pos(), "no append to the outer-names slice found")
@@ -572,7 +575,7 @@ func ruleR014(c *Ctx) {
 			}
 			seen[obj] = true
 			// all assignments to obj inside the literal
-			ast.Inspect(lit.Body, func(m ast.Node) bool {
+			ast.Inspect(litBody, func(m ast.Node) bool {
 				if as, ok := m.(*ast.AssignStmt); ok {
 					for i, l := range as.Lhs {
 						if lid, ok := ast.Unparen(l).(*ast.Ident); ok && info.ObjectOf(lid) == obj {
